@@ -48,6 +48,8 @@ FLAVOURS = {
         "breaks the property as stated for some input. Prefer the survivor that needs the most specific input. Keep all 306 tests "
         "passing."),
 }
+FLAVOURS[9] = FLAVOURS[8] + (" Choose a site (file, function or library procedure) that NONE of the earlier changes listed above touched, "
+                             "and say in meta.json how many candidate mutants you tried and how many survived the suite.")
 
 
 def main():
